@@ -579,14 +579,14 @@ def check(ctx):
     ctx.rule("R15.3", "per-gate rules: the gradient term of each rotation class evaluates (pure / mixed) to the derivative of the class's own closed-form array")
     ctx.rule("R15.4", "scalars: the gradient keeps mixedness and differentiates the evaluated value")
     ctx.rule("R15.5", "options and flags: **params reach every nested gradient, getattr fallbacks bind the call, evaluated arrays are not re-daggered")
-    check_product_rule(ctx)
-    check_totality(ctx)
-    check_rotation_rules(ctx)
-    check_scalars(ctx)
-    check_spiders(ctx)
-    check_inner_derivative(ctx)
-    check_forwarding(ctx)
-    check_bubble_chain_rule(ctx)
+    ctx.attempt(check_product_rule, ctx)
+    ctx.attempt(check_totality, ctx)
+    ctx.attempt(check_rotation_rules, ctx)
+    ctx.attempt(check_scalars, ctx)
+    ctx.attempt(check_spiders, ctx)
+    ctx.attempt(check_inner_derivative, ctx)
+    ctx.attempt(check_forwarding, ctx)
+    ctx.attempt(check_bubble_chain_rule, ctx)
     ctx.rule("R15.6", "the gradient of a tensor box is a bubble around it: bubbles are typed like their inside and evaluated by applying the function to the inside (C09 R09.7, R09.2)")
     try:
         ctx.depend("R15.6", "C09", "Box.grad returns self.bubble(func=...): the bubble must have the type of the box and the options must reach the Bubble class", rules={"R09.7"}, mod="discopy.tensor")
